@@ -44,6 +44,11 @@ enum Peer {
     /// Foreign cache that answers a too-new query directly in its own
     /// version (RFC 8210 section 7, case 2).
     LegacyReply { max: u8 },
+    /// A non-conforming cache: it answers a too-new query with Error code 4 in
+    /// version `max` and then serves the retried query in a *different*
+    /// version. A client must not complete a step on that (whatever it
+    /// stored would not be "restricted to the negotiated version").
+    LegacyFlipFlop { max: u8 },
 }
 
 impl Peer {
@@ -54,12 +59,13 @@ impl Peer {
             Peer::LegacyError { max } => format!("legacy-error-v{}", max),
             Peer::LegacyErrorClose { max } => format!("legacy-error-close-v{}", max),
             Peer::LegacyReply { max } => format!("legacy-reply-v{}", max),
+            Peer::LegacyFlipFlop { max } => format!("legacy-flipflop-v{}", max),
         }
     }
     fn max_version(self) -> u8 {
         match self {
             Peer::Real => 2,
-            Peer::LegacyError { max } | Peer::LegacyErrorClose { max } | Peer::LegacyReply { max } => max,
+            Peer::LegacyError { max } | Peer::LegacyErrorClose { max } | Peer::LegacyReply { max } | Peer::LegacyFlipFlop { max } => max,
         }
     }
 }
@@ -256,6 +262,7 @@ async fn read_pdu(sock: &mut SimSocket) -> std::io::Result<Vec<u8>> {
 async fn legacy_cache(sh: Arc<Shared>, mut sock: SimSocket) {
     let source = sh.source.clone();
     let max = sh.peer.max_version();
+    let mut sent_version_error = false;
     loop {
         let bytes = match read_pdu(&mut sock).await {
             Ok(b) => b,
@@ -268,7 +275,8 @@ async fn legacy_cache(sh: Arc<Shared>, mut sock: SimSocket) {
         let qv = pdu.version();
         let v = if qv > max {
             match sh.peer {
-                Peer::LegacyError { .. } | Peer::LegacyErrorClose { .. } => {
+                Peer::LegacyError { .. } | Peer::LegacyErrorClose { .. } | Peer::LegacyFlipFlop { .. } => {
+                    sent_version_error = true;
                     let err = WirePdu::Error { v: max, code: 4, pdu: bytes.clone(), text: b"unsupported version".to_vec() };
                     if sock.write_all(&err.encode()).await.is_err() {
                         return;
@@ -285,6 +293,10 @@ async fn legacy_cache(sh: Arc<Shared>, mut sock: SimSocket) {
                     max
                 }
             }
+        } else if sent_version_error && matches!(sh.peer, Peer::LegacyFlipFlop { .. }) {
+            // changes its mind: serves the retried query in another version
+            sh.bump("fault_peer_changed_version_after_negotiation");
+            if max == 0 { 1 } else { max - 1 }
         } else {
             qv
         };
@@ -897,7 +909,8 @@ impl C06 {
         let (peer, net, uni, source, routers, ops, fault_kinds) = {
             let mut t = ctx.tape.lock().unwrap();
             let sweep = match kind { RunKind::Sweep(i) => Some(i), RunKind::Random => None };
-            let peer = match sweep.map(|i| (i / 3) % 7).unwrap_or_else(|| t.weighted(&[12, 1, 1, 1, 1, 1, 1]) as u64) {
+            let peer = match sweep.map(|i| (i / 3) % 7).unwrap_or_else(|| t.weighted(&[12, 1, 1, 1, 1, 1, 1, 1]) as u64) {
+                7 => Peer::LegacyFlipFlop { max: t.choose(2) as u8 },
                 0 => Peer::Real,
                 1 => Peer::LegacyError { max: 0 },
                 2 => Peer::LegacyError { max: 1 },
@@ -1077,6 +1090,9 @@ impl C06 {
             let after = sh.counters.lock().unwrap().get("steps_completed");
             if after > before {
                 sh.bump("probe_converged_after_faults");
+            } else if matches!(peer, Peer::LegacyFlipFlop { .. }) {
+                // nobody can (or may) complete a step against this peer
+                sh.bump("probe_no_step_against_nonconforming_peer");
             } else if !sh.failed() {
                 // bounded progress once faults have stopped: a fresh router on
                 // a reliable transport against a ready source gets 4 attempts
